@@ -60,7 +60,7 @@ def main():
             continue
         for line in open(os.path.join(ld, lf)):
             w = line.split('#')[0].split()
-            if len(w) < 2:
+            if len(w) < 2 or w[0].startswith('@'):
                 continue
             coq = w[2] if len(w) > 2 else w[1]
             hits = []
